@@ -21,11 +21,12 @@ Components == {"err", "abort", "sp", "frameIndex", "ip", "curFrame",
                "stack.locals", "stack.above", "modulesCache", "globals", "pool.vms"}
 
 \* scripts of the harness library: number -> how the run ends
-Scripts == 1..22
+Scripts == 1..24
 Term(s) == CASE s = 1 -> "return" [] s = 2 -> "error-through-finally" [] s = 3 -> "recovered-panic" [] s = 4 -> "stack-overflow"
              [] s = 5 -> "frame-overflow" [] s = 6 -> "abort" [] s = 7 -> "tailstmt-throw" [] s = 8 -> "module-state"
              [] s = 9 -> "closures" [] s = 10 -> "error-in-finally" [] s = 11 -> "callback-error" [] s = 12 -> "deep-return"
              [] s = 15 -> "abort-in-callback"
+             [] s \in 23..24 -> "tailstmt-throw"   \* the throw comes from a callee one (23) or two (24) frames above the frame that discards its result: the frame Run clears on the way out is not the dirty one
              [] s = 22 -> "return"                  \* catches runtime errors raised by the VM and derives new errors from them (e.New): the builtin error values are shared by the whole process and read by probe 15
              [] s = 20 -> "return"                  \* run with five arguments
              [] s = 21 -> "return"                  \* run with nil globals: stores into the globals the VM provides for that run
